@@ -54,6 +54,14 @@ def correlation_attrs(ccfg: dict) -> dict:
         a["correlation_fields_expression"] = {m: B("cf", "{fields}")}
         a["correlation_fields_field_expression"] = {m: B("f", "{field}")}
         a["correlation_fields_field_expression_joiner"] = {m: ""}
+    if ccfg.get("method"):
+        # a second correlation method, selected by the caller; the templates of the default method carry a
+        # marker so that any slot rendered with the wrong method's template is visible
+        sel = ccfg["method"]
+        a["correlation_methods"] = {m: "default method", sel: "selected method"}
+        for k, v in list(a.items()):
+            if isinstance(v, dict) and set(v) == {m} and k != "correlation_methods":
+                a[k] = {m: "WRONGMETHOD" + v[m] if v[m] else "WRONGMETHOD", sel: v[m]}
     ts = ccfg.get("timespan", "passthrough")
     if ts == "seconds":
         a["timespan_seconds"] = True
